@@ -84,6 +84,8 @@ Msgs(c) ==
              : id \in Ids, ap \in {RegApp, 9}, h \in sp, rl \in {NodeCfg.realm, "r9"}, t \in {FALSE, TRUE}} ELSE {}) \cup
   (IF "req1" \in Alpha /\ ~InFlight(c, 1, 1)      \* identifiers of in-flight requests are unique per connection
      THEN {Mk("APP", 272, TRUE, 1, 1, RegApp, h, NodeCfg.realm, 0, FALSE, TRUE, FALSE, <<>>, <<>>, FALSE) : h \in sp} ELSE {}) \cup
+  (IF "req1T" \in Alpha /\ ~InFlight(c, 1, 1)     \* req1 again, flagged as a possible retransmission
+     THEN {Mk("APP", 272, TRUE, 1, 1, RegApp, h, NodeCfg.realm, 0, TRUE, TRUE, FALSE, <<>>, <<>>, FALSE) : h \in sp} ELSE {}) \cup
   (IF "req2" \in Alpha /\ ~InFlight(c, 1, 2)   \* the same hop-by-hop identifier as req1 with another end-to-end identifier
      THEN {Mk("APP", 272, TRUE, 1, 2, RegApp, h, NodeCfg.realm, 0, FALSE, TRUE, FALSE, <<>>, <<>>, FALSE) : h \in sp} ELSE {}) \cup
   (IF "reqf" \in Alpha    \* a request for a realm the node does not serve
@@ -99,6 +101,7 @@ Usable(c) == S.conn[c].used /\ S.conn[c].sock = "open" /\ ~S.conn[c].connecting 
 Whole(c) == Usable(c) /\ ~S.frag[c]      \* no half-delivered message pending on c
 Acts ==
   (IF S.now < MaxTime THEN {[a |-> "tick"]} ELSE {}) \cup
+  (IF "jump100" \in Alpha /\ S.now + 100 <= MaxTime THEN {[a |-> "jump", n |-> 100]} ELSE {}) \cup
   (IF S.nconn < MaxConn /\ S.listen = "open" THEN {[a |-> "connect"]} ELSE {}) \cup
   (IF "stop" \in Alpha /\ S.stop.phase = "none" THEN {[a |-> "stop", force |-> FALSE, wait |-> 2]} ELSE {}) \cup
   (IF "stopf" \in Alpha /\ S.stop.phase = "none" THEN {[a |-> "stop", force |-> TRUE, wait |-> 2]} ELSE {}) \cup
@@ -133,8 +136,9 @@ Acts ==
   \* an application answers a request it holds (or, with "resub", answers one a second time)
   {[a |-> "submit", app |-> S.held[j].a, c0 |-> S.held[j].c,
     m |-> Mk("APP", S.held[j].m.code, FALSE, S.held[j].m.hbh, S.held[j].m.e2e, S.held[j].m.app,
-             IF S.held[j].m.typed THEN NodeCfg.host ELSE "", "", IF S.held[j].m.typed THEN 2001 ELSE 0, FALSE, S.held[j].m.typed, FALSE, <<>>, <<>>, FALSE)]
-     : j \in {k \in 1..Len(S.held) : ~S.held[k].answered \/ "resub" \in Alpha}} \cup
+             IF S.held[j].m.typed THEN NodeCfg.host ELSE "", "", IF S.held[j].m.typed THEN rc ELSE 0, FALSE, S.held[j].m.typed, FALSE, <<>>, <<>>, FALSE)]
+     \* ("sube": the application may also answer with a protocol error - result 3004, E bit on the wire)
+     : j \in {k \in 1..Len(S.held) : ~S.held[k].answered \/ "resub" \in Alpha}, rc \in (IF "sube" \in Alpha THEN {2001, 3004} ELSE {2001})} \cup
   UNION {{[a |-> "connect_result", c |-> c, err |-> e] : e \in (IF Faults THEN {0, 111} ELSE {0})}
          : c \in {x \in ConnIds : S.conn[x].used /\ S.conn[x].connecting /\ S.conn[x].sock = "open"}}
 
